@@ -4,3 +4,5 @@
 package graphql
 
 func verifCount(name string) {}
+
+func verifConn(kind string, id string, key interface{}) {}
